@@ -2,6 +2,10 @@
   Helper lemmas for C05 (JSON Patch). Statements used by JP/Props/C05.lean.
 -/
 import JP.Patch
+import JP.Lemmas.JInduct
+import JP.Lemmas.PatchAuxOps
+import JP.Lemmas.PatchAuxWf
+set_option linter.unusedSimpArgs false
 namespace JP.Lemmas
 open JP JP.Pointer JP.Patch
 
@@ -29,64 +33,362 @@ where
        | some v' => sameShape v v'
        | none => false) && shapeMembers rest ys
 
+
+/-! ### helpers for the named corollaries -/
+
+theorem pa_std_natStr (n : Nat) (hr : (n : Int) ≤ maxIntIndex) : PaStd (natStr n) := by
+  show isExtensionToken (natStr n) = false
+  unfold isExtensionToken
+  split
+  · rename_i cs h; exact absurd h (pa_natStr_ne_hash_cons n cs)
+  · rename_i cs h; exact absurd h (pa_natStr_ne_tilde_cons n cs)
+  · rw [pa_parseIndexToken_natStr]
+    simp only [Bool.or_eq_false_iff, decide_eq_false_iff_not]
+    omega
+
+theorem pa_apply_single (doc : J) (op : Op) :
+    Patch.apply [op] doc = (applyOp doc op).mapError translate := by
+  simp only [Patch.apply, List.foldlM_cons, List.foldlM_nil]
+  cases (applyOp doc op).mapError translate <;> rfl
+
+theorem pa_length_natStr_huge (n : Nat) (h : 10 ^ 4300 ≤ n) : 4300 < (natStr n).length := by
+  have := @Nat.length_toDigits_le_iff 10 n 4300 (by decide) (by decide)
+  unfold natStr
+  omega
+
+theorem pa_length_natStr_small (n : Nat) (h : n < 10 ^ 4300) : (natStr n).length ≤ 4300 := by
+  have := @Nat.length_toDigits_le_iff 10 n 4300 (by decide) (by decide)
+  unfold natStr
+  omega
+
+theorem pa_natStr_head_ne_dash (n : Nat) : (natStr n).head? ≠ some '-' := by
+  intro hh
+  cases hq : natStr n with
+  | nil => rw [hq] at hh; cases hh
+  | cons c cs =>
+    rw [hq] at hh; simp at hh; subst hh
+    exact pa_natStr_ne_dash_cons _ _ hq
+
+theorem pa_target_arr_miss_key (doc : J) (ps : List Part) (xs : List J) (s : Str)
+    (h : resolveParts doc ps = .ok (.arr xs))
+    (hg : getitem (.arr xs) (.key s) = .error .ptrIndex) (hh : ∀ cs, s ≠ '#' :: cs) :
+    target doc (ps ++ [.key s]) = .ok (some (.arr xs), .key s, none) := by
+  simp [target, resolveParent, h, hg, pa_bind_ok, pa_pure]
+  split
+  · rename_i h1 _; cases h1
+  · rename_i h2; cases h2; exact absurd rfl (hh _)
+  · rename_i h1 h2; cases h1; cases h2; rfl
+  · rename_i h1 h2 h3; exact (h3 _ _ rfl rfl).elim
+
+/-- **Counterexample to `add_at_length` as stated**: for a list with at least `10^4300`
+    elements the decimal text of the length is too long for `int()`, `_index` keeps it as a
+    string, and `_getitem` on the array raises `JSONPointerTypeError`. -/
+theorem add_at_length_huge (xs : List J) (v : J) (h : 10 ^ 4300 ≤ xs.length) :
+    applyOp (.arr xs) (.add [toPart (natStr xs.length)] v) = .error .ptrType := by
+  have hlen := pa_length_natStr_huge _ h
+  have hhead := pa_natStr_head_ne_dash xs.length
+  have hidx : indexOf (natStr xs.length) = .ok (.key (natStr xs.length)) := by
+    unfold indexOf
+    rw [pa_parseIndexToken_natStr]
+    have hc : (natStr xs.length).length > maxStrDigits + 1 ∨
+        ((natStr xs.length).length > maxStrDigits ∧ (natStr xs.length).head? ≠ some '-') :=
+      Or.inr ⟨hlen, hhead⟩
+    simp only [hc, if_true]; rfl
+  have htp : toPart (natStr xs.length) = .key (natStr xs.length) := by
+    unfold toPart; rw [hidx]
+  have hg : getitem (.arr xs) (.key (natStr xs.length)) = .error .ptrType := by
+    have hh := pa_natStr_ne_hash_cons xs.length
+    have hd := pa_natStr_ne_dash xs.length
+    unfold getitem
+    simp only [hd, if_false]
+    rw [hidx]; rfl
+  have htgt := pa_target_type (.arr xs) [] (.key (natStr xs.length)) (.arr xs) rfl hg
+  rw [htp]
+  simp only [List.nil_append] at htgt
+  simp [applyOp, applyAdd, htgt, pa_bind_error]
+
+theorem add_at_length_false :
+    ¬ ∀ (xs : List J) (v : J),
+      applyOp (.arr xs) (.add [toPart (natStr xs.length)] v) = .ok (.arr (xs ++ [v])) := by
+  intro hall
+  have h1 := hall (List.replicate (10 ^ 4300) .null) .null
+  rw [add_at_length_huge _ _ (by rw [List.length_replicate]; exact Nat.le_refl _)] at h1
+  cases h1
+
+/-- `add_at_length` for every list whose length has at most 4300 decimal digits. -/
+theorem add_at_length_partial (xs : List J) (v : J) (hlen : xs.length < 10 ^ 4300) :
+    applyOp (.arr xs) (.add [toPart (natStr xs.length)] v) = .ok (.arr (xs ++ [v])) := by
+  by_cases hr : (xs.length : Int) ≤ maxIntIndex
+  · rw [pa_toPart_natStr _ hr]
+    have htgt := pa_target_arr_idx (.arr xs) [] xs xs.length rfl
+    simp only [List.nil_append] at htgt
+    have hins := pa_insertArr_nat xs xs.length v
+    have hnone : xs[xs.length]? = none := by simp
+    rw [hnone] at hins htgt
+    simp only [Nat.le_refl, if_true, List.take_length, List.drop_length] at hins
+    simp [applyOp, applyAdd, htgt, pa_bind_ok, hins, writeBack, pa_pure]
+  · have hl := pa_length_natStr_small _ hlen
+    have hidx : indexOf (natStr xs.length) = .error .ptrIndex := by
+      unfold indexOf
+      rw [pa_parseIndexToken_natStr]
+      have h1 : ¬ ((natStr xs.length).length > maxStrDigits + 1 ∨
+          ((natStr xs.length).length > maxStrDigits ∧ (natStr xs.length).head? ≠ some '-')) := by
+        unfold maxStrDigits; omega
+      have h2 : ((xs.length : Nat) : Int) < minIntIndex ∨ ((xs.length : Nat) : Int) > maxIntIndex :=
+        Or.inr (by omega)
+      simp only [h1, h2, if_false, if_true]; rfl
+    have htp : toPart (natStr xs.length) = .key (natStr xs.length) := by
+      unfold toPart; rw [hidx]
+    have hg : getitem (.arr xs) (.key (natStr xs.length)) = .error .ptrIndex := by
+      have hh := pa_natStr_ne_hash_cons xs.length
+      have hd := pa_natStr_ne_dash xs.length
+      unfold getitem
+      simp only [hd, if_false]
+      rw [hidx]; rfl
+    have hh := pa_natStr_ne_hash_cons xs.length
+    have htgt := pa_target_arr_miss_key (.arr xs) [] xs (natStr xs.length) rfl hg hh
+    simp only [List.nil_append] at htgt
+    rw [htp]
+    simp [applyOp, applyAdd, htgt, pa_bind_ok, insertArr, partStr, writeBack, pa_pure]
+
 theorem apply_refines_rfc (doc : J) (ops : List SOp) (hstd : ∀ op ∈ ops, op.standard) :
     Refines (Patch.apply (ops.map opOfSpec) doc) (rfcApply ops doc) := by
-  sorry
+  exact pa_apply_refines ops hstd doc
 
 theorem wf_preserved (doc d : J) (ops : List SOp) (hstd : ∀ op ∈ ops, op.standard)
     (hdoc : doc.wf = true)
     (hvals : ∀ op ∈ ops, ∀ p v, (op = .add p v ∨ op = .replace p v) → v.wf = true)
     (h : Patch.apply (ops.map opOfSpec) doc = .ok d) : d.wf = true := by
-  sorry
+  have href := pa_apply_refines ops hstd doc
+  cases hS : rfcApply ops doc with
+  | ok d' =>
+    rw [hS] at href
+    have hc : Patch.apply (ops.map opOfSpec) doc = .ok d' := href
+    rw [hc] at h
+    cases h
+    exact pa_wf_rfcApply ops doc d hdoc hvals hS
+  | error se =>
+    rw [hS] at href
+    cases se with
+    | violation =>
+      obtain ⟨e, he, _⟩ := href
+      rw [he] at h; cases h
+    | testFailed =>
+      have hc : Patch.apply (ops.map opOfSpec) doc = .error .patchTest := href
+      rw [hc] at h; cases h
 
-theorem add_at_length (xs : List J) (v : J) :
+-- Arrays longer than the index limit are outside the pointer index range (see
+-- `add_at_length_huge` / `add_at_length_false` for why the hypothesis is needed).
+theorem add_at_length (xs : List J) (v : J) (hr : (xs.length : Int) ≤ maxIntIndex) :
     applyOp (.arr xs) (.add [toPart (natStr xs.length)] v) = .ok (.arr (xs ++ [v])) := by
-  sorry
+  refine add_at_length_partial xs v ?_
+  unfold maxIntIndex at hr
+  have : (2 : Nat) ^ 53 ≤ 10 ^ 4300 := by
+    calc (2 : Nat) ^ 53 ≤ 10 ^ 53 := Nat.pow_le_pow_left (by decide) 53
+      _ ≤ 10 ^ 4300 := Nat.pow_le_pow_right (by decide) (by decide)
+  omega
 
 theorem add_dash (xs : List J) (v : J) :
     applyOp (.arr xs) (.add [.key ['-']] v) = .ok (.arr (xs ++ [v])) := by
-  sorry
+  have htgt := pa_target_arr_dash (.arr xs) [] xs rfl
+  simp only [List.nil_append] at htgt
+  simp [applyOp, applyAdd, htgt, pa_bind_ok, insertArr, writeBack, pa_pure]
 
 theorem move_copy_dash (a b : Str) (hab : a ≠ b) (v : J) (xs : List J) :
     applyOp (.obj [(a, v), (b, .arr xs)]) (.copy [.key a] [.key b, .key ['-']])
       = .ok (.obj [(a, v), (b, .arr (xs ++ [v]))]) ∧
     applyOp (.obj [(a, v), (b, .arr xs)]) (.move [.key a] [.key b, .key ['-']])
       = .ok (.obj [(b, .arr (xs ++ [v]))]) := by
-  sorry
+  have hba : b ≠ a := fun h => hab h.symm
+  have hga : getitem (.obj [(a, v), (b, .arr xs)]) (.key a) = .ok v := by
+    simp [getitem, dictGet, pa_pure]
+  have hgb : getitem (.obj [(a, v), (b, .arr xs)]) (.key b) = .ok (.arr xs) := by
+    simp [getitem, dictGet, hab, pa_pure]
+  have hta : target (.obj [(a, v), (b, .arr xs)]) [.key a] =
+      .ok (some (.obj [(a, v), (b, .arr xs)]), .key a, some v) := by
+    have := pa_target_obj (.obj [(a, v), (b, .arr xs)]) [] (.key a) _ rfl
+      (by simp [getitem, dictGet, partStr, pa_pure])
+    simpa [partStr, dictGet] using this
+  have hrb : resolveParts (.obj [(a, v), (b, .arr xs)]) [.key b] = .ok (.arr xs) := by
+    rw [pa_resolveParts_cons, hgb]; rfl
+  have htb := pa_target_arr_dash (.obj [(a, v), (b, .arr xs)]) [.key b] xs hrb
+  simp only [List.cons_append, List.nil_append] at htb
+  have hwb : writeBack (.obj [(a, v), (b, .arr xs)]) [.key b] (.arr (xs ++ [v])) =
+      .ok (.obj [(a, v), (b, .arr (xs ++ [v]))]) := by
+    simp [writeBack, slotOf, partStr, dictHas, dictGet, dictSet, hab, pa_bind_ok, pa_pure]
+  constructor
+  · simp [applyOp, applyCopy, hta, htb, pa_bind_ok, insertArr, pa_pure, hwb]
+  · have hrel : isRelativeTo [Part.key b, Part.key ['-']] [Part.key a] = false := by
+      simp [isRelativeTo, tokens, partStr, hba]
+    have hg1 : getitem (.obj [(b, .arr xs)]) (.key b) = .ok (.arr xs) := by
+      simp [getitem, dictGet, pa_pure]
+    have hr1 : resolveParts (.obj [(b, .arr xs)]) [.key b] = .ok (.arr xs) := by
+      rw [pa_resolveParts_cons, hg1]; rfl
+    have ht1 := pa_target_arr_dash (.obj [(b, .arr xs)]) [.key b] xs hr1
+    simp only [List.cons_append, List.nil_append] at ht1
+    have hw1 : writeBack (.obj [(b, .arr xs)]) [.key b] (.arr (xs ++ [v])) =
+        .ok (.obj [(b, .arr (xs ++ [v]))]) := by
+      simp [writeBack, slotOf, partStr, dictHas, dictGet, dictSet, pa_bind_ok, pa_pure]
+    have hrem : applyRemove (.obj [(a, v), (b, .arr xs)]) [.key a] = .ok (.obj [(b, .arr xs)]) := by
+      simp [applyRemove, hta, pa_bind_ok, writeBack, partStr, dictErase, pa_pure]
+    have hadd : applyAdd (.obj [(b, .arr xs)]) [.key b, .key ['-']] v =
+        .ok (.obj [(b, .arr (xs ++ [v]))]) := by
+      simp [applyAdd, ht1, pa_bind_ok, insertArr, pa_pure, hw1]
+    show applyMove _ _ _ = _
+    rw [pa_applyMove_obj _ _ _ _ _ v hrel hta, hrem]
+    exact hadd
 
 theorem index_gt_length_fails (xs : List J) (v : J) (n : Nat) (h : xs.length < n)
     (hr : (n : Int) ≤ maxIntIndex) :
     ∃ e, Patch.apply [.add [toPart (natStr n)] v] (.arr xs) = .error e ∧ e.isPatchFamily = true := by
-  sorry
+  rw [pa_apply_single, pa_toPart_natStr n hr]
+  have htgt := pa_target_arr_idx (.arr xs) [] xs n rfl
+  simp only [List.nil_append] at htgt
+  have hins := pa_insertArr_nat xs n v
+  rw [if_neg (by omega)] at hins
+  refine ⟨.patch, ?_, rfl⟩
+  simp [applyOp, applyAdd, htgt, pa_bind_ok, pa_bind_error, hins, Except.mapError, translate]
 
 theorem noncanonical_index_fails (xs : List J) (v : J) (t : Str)
     (ht : parseIndexToken t = none) (hd : t ≠ ['-']) (hh : t.head? ≠ some '#') :
     ∃ e, Patch.apply [.add [toPart t] v] (.arr xs) = .error e ∧ e.isPatchFamily = true := by
-  sorry
+  rw [pa_apply_single, pa_toPart_of_none t ht]
+  have hh' : ∀ cs, t ≠ '#' :: cs := by
+    intro cs h; apply hh; rw [h]; rfl
+  have htgt := pa_target_type (.arr xs) [] (.key t) (.arr xs) rfl
+    (pa_getitem_arr_key xs t ht hd hh')
+  simp only [List.nil_append] at htgt
+  refine ⟨.patch, ?_, rfl⟩
+  simp [applyOp, applyAdd, htgt, pa_bind_error, Except.mapError, translate]
 
 theorem integer_like_member_names (kvs : List (Str × J)) (v : J) (n : Nat) (hr : (n : Int) ≤ maxIntIndex) :
     applyOp (.obj kvs) (.add [toPart (natStr n)] v) = .ok (.obj (dictSet kvs (natStr n) v)) ∧
     (dictHas kvs (natStr n) = true →
       applyOp (.obj kvs) (.remove [toPart (natStr n)]) = .ok (.obj (dictErase kvs (natStr n)))) := by
-  sorry
+  have hstd : ∀ t ∈ [natStr n], PaStd t := by
+    intro t ht; simp at ht; subst ht; exact pa_std_natStr n hr
+  constructor
+  · have h := pa_add (.obj kvs) [natStr n] v hstd
+    have hs : rfcAdd (.obj kvs) [natStr n] v = some (.obj (dictSet kvs (natStr n) v)) := by
+      simp [rfcAdd, rfcUpdate, rfcAddLast]
+    rw [hs] at h
+    exact h
+  · intro hhas
+    have h := pa_remove (.obj kvs) [natStr n] hstd
+    have hs : rfcRemove (.obj kvs) [natStr n] = some (.obj (dictErase kvs (natStr n))) := by
+      simp [rfcRemove, rfcUpdate, rfcRemoveLast, hhas]
+    rw [hs] at h
+    exact h
 
 theorem replace_root (doc v : J) :
     applyOp doc (.replace [] v) = .ok v ∧ applyOp doc (.add [] v) = .ok v := by
-  sorry
+  constructor
+  · simp [applyOp, applyReplace, pa_target_nil, pa_bind_ok, pa_pure]
+  · simp [applyOp, applyAdd, pa_target_nil, pa_bind_ok, pa_pure]
 
 theorem move_into_own_child_fails (doc : J) (src : List Str) (t : Str) (more : List Str) :
     ∃ e, Patch.apply [opOfSpec (.move src (src ++ t :: more))] doc = .error e ∧ e.isPatchFamily = true := by
-  sorry
+  rw [pa_apply_single]
+  have hrel : isRelativeTo (toParts (src ++ t :: more)) (toParts src) = true := by
+    simp [isRelativeTo, toParts, tokens, List.take_left']
+  refine ⟨.patch, ?_, rfl⟩
+  show (applyMove doc (toParts src) (toParts (src ++ t :: more))).mapError translate = _
+  rw [pa_applyMove_rel _ _ _ hrel]; rfl
 
 theorem eqv_no_bool_num (b : Bool) (i : Int) :
     (J.bool b).eqv (.int i) = false ∧ (J.bool b).eqv (.flt i) = false ∧
     (J.int i).eqv (.bool b) = false ∧ (J.flt i).eqv (.bool b) = false := by
-  sorry
+  simp [J.eqv]
+
+theorem pa_eqvList_shape (xs : List J)
+    (ih : ∀ x ∈ xs, ∀ b, x.eqv b = true → sameShape x b = true) (ys : List J)
+    (h : J.eqv.eqvList xs ys = true) : sameShape.shapeList xs ys = true := by
+  induction xs generalizing ys with
+  | nil => cases ys <;> simp_all [J.eqv.eqvList, sameShape.shapeList]
+  | cons x xs ihx =>
+    cases ys with
+    | nil => simp [J.eqv.eqvList] at h
+    | cons y ys =>
+      simp only [J.eqv.eqvList, Bool.and_eq_true] at h
+      simp only [sameShape.shapeList, Bool.and_eq_true]
+      exact ⟨ih x (by simp) y h.1, ihx (fun x' hx' => ih x' (by simp [hx'])) ys h.2⟩
+
+theorem pa_eqvMembers_shape (kvs : List (Str × J))
+    (ih : ∀ kv ∈ kvs, ∀ b, kv.2.eqv b = true → sameShape kv.2 b = true) (ys : List (Str × J))
+    (h : J.eqv.eqvMembers kvs ys = true) : sameShape.shapeMembers kvs ys = true := by
+  induction kvs with
+  | nil => simp [sameShape.shapeMembers]
+  | cons kv kvs ihx =>
+    obtain ⟨k, v⟩ := kv
+    simp only [J.eqv.eqvMembers, Bool.and_eq_true] at h
+    simp only [sameShape.shapeMembers, Bool.and_eq_true]
+    refine ⟨?_, ihx (fun x' hx' => ih x' (by simp [hx'])) h.2⟩
+    cases hd : dictGet ys k with
+    | none => rw [hd] at h; simp at h
+    | some v' =>
+      rw [hd] at h
+      exact ih (k, v) (by simp) v' h.1
+
+theorem pa_eqvList_refl (xs : List J) (ih : ∀ x ∈ xs, x.wf = true → x.eqv x = true)
+    (hw : ∀ x ∈ xs, x.wf = true) : J.eqv.eqvList xs xs = true := by
+  induction xs with
+  | nil => simp [J.eqv.eqvList]
+  | cons x xs ihx =>
+    simp only [J.eqv.eqvList, Bool.and_eq_true]
+    exact ⟨ih x (by simp) (hw x (by simp)),
+      ihx (fun x' hx' => ih x' (by simp [hx'])) (fun x' hx' => hw x' (by simp [hx']))⟩
+
+theorem pa_eqvMembers_refl (kvs sub : List (Str × J))
+    (ih : ∀ kv ∈ kvs, kv.2.wf = true → kv.2.eqv kv.2 = true)
+    (hw : ∀ kv ∈ kvs, kv.2.wf = true) (hn : (kvs.map (·.1)).Nodup)
+    (hsub : ∀ kv ∈ sub, kv ∈ kvs) : J.eqv.eqvMembers sub kvs = true := by
+  induction sub with
+  | nil => simp [J.eqv.eqvMembers]
+  | cons kv sub ihx =>
+    obtain ⟨k, v⟩ := kv
+    have hm : (k, v) ∈ kvs := hsub (k, v) (by simp)
+    simp only [J.eqv.eqvMembers, Bool.and_eq_true]
+    rw [pa_dictGet_of_mem_nodup kvs k v hm hn]
+    exact ⟨ih (k, v) hm (hw (k, v) hm), ihx (fun x' hx' => hsub x' (by simp [hx']))⟩
 
 theorem eqv_sameShape (a b : J) (h : a.eqv b = true) : sameShape a b = true := by
-  sorry
+  revert b
+  induction a using J.induct with
+  | hnull => intro b h; cases b <;> simp_all [J.eqv, sameShape]
+  | hbool x => intro b h; cases b <;> simp_all [J.eqv, sameShape]
+  | hint x => intro b h; cases b <;> simp_all [J.eqv, sameShape]
+  | hflt x => intro b h; cases b <;> simp_all [J.eqv, sameShape]
+  | hstr x => intro b h; cases b <;> simp_all [J.eqv, sameShape]
+  | harr xs ih =>
+    intro b h
+    cases b with
+    | arr ys =>
+      simp only [J.eqv] at h
+      simp only [sameShape]
+      exact pa_eqvList_shape xs ih ys h
+    | _ => simp [J.eqv] at h
+  | hobj kvs ih =>
+    intro b h
+    cases b with
+    | obj ys =>
+      simp only [J.eqv, Bool.and_eq_true] at h
+      simp only [sameShape, Bool.and_eq_true]
+      exact ⟨h.1, pa_eqvMembers_shape kvs ih ys h.2⟩
+    | _ => simp [J.eqv] at h
 
 theorem eqv_refl (a : J) (h : a.wf = true) : a.eqv a = true := by
-  sorry
+  induction a using J.induct with
+  | hnull => simp [J.eqv]
+  | hbool x => simp [J.eqv]
+  | hint x => simp [J.eqv]
+  | hflt x => simp [J.eqv]
+  | hstr x => simp [J.eqv]
+  | harr xs ih =>
+    simp only [J.eqv]
+    exact pa_eqvList_refl xs ih ((pa_wf_arr xs).1 h)
+  | hobj kvs ih =>
+    rw [pa_wf_obj] at h
+    simp only [J.eqv, Bool.and_eq_true]
+    exact ⟨by simp, pa_eqvMembers_refl kvs kvs ih h.2 h.1 (fun _ h => h)⟩
 
 end JP.Lemmas
